@@ -89,14 +89,15 @@ def gen_v5_list(ctx, nm, little, addr, kinds, loc, addrs):
             x = ctx.uint(v + suffix, 8 * addr)
             return x, enc.enc_int(x, addr, little)
         fields = {}
+        iw = k[2] if len(k) > 2 else 1        # width of the ULEB128 index operands (1 = minimal; more = padded, equally valid)
         if kind == 'base_addressx':
-            i0 = idx('.index'); b += enc.uleb_enc(i0, 1); fields = dict(index=i0)
+            i0 = idx('.index'); b += enc.uleb_enc(i0, iw); fields = dict(index=i0)
             tr = ('base', ctx.select(addrs, i0))
         elif kind == 'startx_endx':
-            i0, i1 = idx('.start'), idx('.end'); b += enc.uleb_enc(i0, 1) + enc.uleb_enc(i1, 1); fields = dict(start_index=i0, end_index=i1)
+            i0, i1 = idx('.start'), idx('.end'); b += enc.uleb_enc(i0, iw) + enc.uleb_enc(i1, iw); fields = dict(start_index=i0, end_index=i1)
             tr = ('entry', ctx.select(addrs, i0), ctx.select(addrs, i1), True)
         elif kind == 'startx_length':
-            i0 = idx('.start'); ln, lb = uleb('.len'); b += enc.uleb_enc(i0, 1) + lb; fields = dict(start_index=i0, length=ln)
+            i0 = idx('.start'); ln, lb = uleb('.len'); b += enc.uleb_enc(i0, iw) + lb; fields = dict(start_index=i0, length=ln)
             a0 = ctx.select(addrs, i0)
             tr = ('entry', a0, a0 + ln, True)
         elif kind == 'offset_pair':
@@ -321,7 +322,7 @@ def h_blocks(ctx):
     secname = 'debug_loclists' if loc else 'debug_rnglists'
     di, streams = mk_dwarfinfo(ctx, little, addr, debug_info=cu, debug_abbrev=ab, debug_addr=addrsec, **{secname: sec})
     lists = di.location_lists() if loc else di.range_lists()
-    hdrs = ctx.drain(lists.iter_CUs())
+    hdrs = ctx.walk(lambda: lists.iter_CUs())
     ctx.outcome('ok')
     label = 'blocks/%s' % ('loc' if loc else 'rng')
     ctx.check_eq(label + '/count', len(hdrs), len(blocks))
@@ -335,7 +336,7 @@ def h_blocks(ctx):
         else:
             ctx.check(label + '/no-offsets', not h.offsets)
         if not loc:
-            got = ctx.drain(lists.iter_CU_range_lists_ex(h))
+            got = ctx.walk(lambda: lists.iter_CU_range_lists_ex(h))
             ctx.check_eq(label + '/lists-in-block/count', len(got), len(w['raws']))
             if len(got) == len(w['raws']):
                 for gl, raw, lo in zip(got, w['raws'], w['offs']):
@@ -546,6 +547,7 @@ def _v5_instances(tier):
                 out.append(dict(little=little, addr=addr, loc=True, kinds=[('offset_pair', 2, 2), ('start_length', 1, 3), ('default_location', 0, 2)], base_first=True))
             out.append(dict(little=little, addr=addr, loc=loc, kinds=[('base_addressx',), ('offset_pair', 0), ('start_length', 1)], base_first=False))
             out.append(dict(little=little, addr=addr, loc=loc, kinds=[('startx_endx', 1), ('base_address',), ('startx_length', 0)], base_first=True))
+            out.append(dict(little=little, addr=addr, loc=loc, kinds=[('base_addressx', 0, 2), ('startx_endx', 1, 2), ('startx_length', 0, 3)], base_first=True))      # padded index operands
     return out
 
 
